@@ -4,7 +4,7 @@ from fw import Harness
 from llsym import Finding, Sym, PathEnd
 from irparse import IntTy
 i8, i32, i64 = IntTy(8), IntTy(32), IntTy(64)
-K_WRITE, K_FSYNC, K_CLOSE, K_DUP, K_FSTAT, K_GZDOPEN, K_GZWRITE, K_GZCLOSE = range(1, 9)
+K_WRITE, K_FSYNC, K_CLOSE, K_DUP, K_FSTAT, K_GZDOPEN, K_GZWRITE, K_GZCLOSE, K_FDOPEN, K_FCLOSE, K_BZWOPEN, K_BZWRITE, K_BZWCLOSE = range(1, 14)
 EINTR = 4
 MAXW = 100 * 1024 * 1024
 MAXSZ = 3
@@ -148,6 +148,51 @@ def h_gzip_compressor(I, job):
     I.reach('end')
 
 
+def h_bzip2_compressor(I, job):
+    """Bzip2Compressor: construct, nwrites x write(a) (also with no write at all and with empty data), close(), close(): the file holds a complete bzip2 stream or an exception is thrown"""
+    K = job['calls']; fd = job['fd']; sync = job['sync']; nw = job['writes']
+    sa = I.named('size_a', 8); I.assume(z3.ULE(I.term(sa, 8), 2)); sa = I.concretize(sa, 'size a')
+    rets, errs, log, nc, R, E = make_script(I, K)
+    stage = I.new_obj(4, 'stage', 'heap'); fs = I.new_obj(8, 'fsize', 'heap')
+    rc = I.concretize(I.call('@verif_bzip2_compressor', [fd, sync, sa, nw, rets, errs, K, log, 4 * K, nc, stage, fs]), 'rc')
+    if rc == 77: raise PathEnd()
+    I.observe('rc', rc)
+    n = I.concretize(I.load(nc, i32), 'ncalls'); calls = read_log(I, log, min(n, K))
+    kinds = [c[0] for c in calls]
+    failed = False; opened = False; closed_ok = False; written = 0; csize = None
+    for j, (kind, fdv, cnt, off) in enumerate(calls):
+        if kind == K_FDOPEN: bad = I.decide(Sym(R[j] != 1, 1), 'fdopen fails')
+        elif kind == K_BZWOPEN:
+            bad = I.decide(Sym(R[j] != 1, 1), 'bzWriteOpen fails'); opened = opened or not bad
+        elif kind == K_BZWRITE:
+            bad = I.decide(Sym(R[j] != 0, 1), 'bzWrite fails')
+            ln = I.concretize(cnt, 'bzWrite length')
+            if ln != sa: raise Finding('write-count', 'BZ2_bzWrite called with length %d, the data has %d bytes' % (ln, sa))
+            if not bad: written += ln
+        elif kind == K_BZWCLOSE:
+            bad = I.decide(Sym(z3.Extract(63, 63, R[j]) == 1, 1), 'bzWriteClose fails'); closed_ok = closed_ok or not bad
+            if not bad: csize = R[j]
+        elif kind in (K_FSYNC, K_FCLOSE): bad = I.decide(Sym(R[j] != 0, 1), 'fsync/fclose fails')
+        elif kind == K_CLOSE: bad = False             # descriptor closed after a failed fdopen: its own result does not matter
+        else: raise Finding('calls', 'unexpected call kind %d in %s' % (kind, kinds))
+        # the destructor-time fclose after a failed constructor is clean-up: its failure need not be reported separately
+        if bad and not (kind == K_FCLOSE and failed): failed = True
+    if failed:
+        if rc == 0: raise Finding('lost-error', 'Bzip2Compressor returns normally although a library / OS call failed (calls %s)' % kinds)
+    else:
+        if rc != 0: raise Finding('spurious-error', 'Bzip2Compressor throws (rc=%d) although no call failed (calls %s)' % (rc, kinds))
+        # complete valid file: the stream was opened, received all the data, was closed, synced if asked for, and the file closed (unless stdout)
+        if not (opened and closed_ok): raise Finding('incomplete-file', 'close() returns normally but the bzip2 stream was never opened / closed (calls %s): the file is not a valid bzip2 file' % kinds)
+        if written != nw * sa: raise Finding('incomplete-file', '%d of %d data bytes were handed to the library' % (written, nw * sa))
+        if kinds.index(K_BZWOPEN) > min([i for i, k_ in enumerate(kinds) if k_ in (K_BZWRITE, K_BZWCLOSE)]): raise Finding('calls', 'stream written or closed before it was opened')
+        if sync and K_FSYNC not in kinds: raise Finding('no-fsync', 'fsync requested but not called')
+        if sync and kinds.index(K_FSYNC) < kinds.index(K_BZWCLOSE): raise Finding('no-fsync', 'fsync called before the stream was finished')
+        if fd != 1 and K_FCLOSE not in kinds: raise Finding('not-closed', 'the file was not closed')
+        if fd == 1 and K_FCLOSE in kinds: raise Finding('stdout-closed', 'stdout was closed')
+        I.obligation(I.term(I.load(fs, i64), 64) == csize, 'file-size', 'file_size() differs from the compressed size reported by the library')
+    I.reach('end')
+
+
 def gen_script(K, extra):
     def g(rnd):
         out = []
@@ -157,6 +202,13 @@ def gen_script(K, extra):
             out.append(d)
         return out
     return g
+
+
+def bzip2_harness(tier):
+    q = tier == 'quick'
+    return Harness('bzip2_compressor', 'io', h_bzip2_compressor, jobs=[dict(calls=7, fd=f, sync=sy, writes=w) for f in (1, 5) for sy in (0, 1) for w in ((0, 1) if q else (0, 1, 2))],
+                   desc='Bzip2Compressor (fdopen, BZ2_bzWriteOpen, BZ2_bzWrite, BZ2_bzWriteClose64, fsync, fclose as scripted stubs returning any value their contracts allow) constructed, written to 0-2 times (empty data included), closed twice: normal return iff no call failed; then the stream was opened before use, received exactly the data, was finished before fsync, the file was closed (stdout never), file_size() is the size the library reported -- also when nothing was written (an empty stream is still a complete file)',
+                   bounds='<= 7 library / OS calls, data of 0..2 bytes, fd 1 (stdout) and 5, with and without fsync')
 
 
 def harnesses(tier):
@@ -173,4 +225,5 @@ def harnesses(tier):
                 desc='GzipCompressor: construct (dup, gzdopen), write, close, close under arbitrary return codes of dup/gzdopen/gzwrite/gzclose_w/fstat/fsync/close: every failing call surfaces as gzip_error / system_error; order of calls; stdout not closed',
                 bounds='<= 7 library/OS calls, one write of 0..3 bytes', testgen=gen_script(7, lambda rnd: {'size_a': rnd.randint(0, 3)})),
     ]
+    hs.append(bzip2_harness(tier))
     return hs
